@@ -13,7 +13,7 @@ LEVEL_NOTE = ("L-proto: toolkit.get_synced_metric(_collection) and the 4 entry p
               "no CollectiveMismatch on the transports; NCCL / device moves not exercised")
 
 SINGLE = ["Mean", "Sum", "Max", "Min", "Cat", "Cat2d", "Throughput", "MulticlassAccuracy", "MulticlassAccuracyMacro",
-          "BinaryAUROC", "MeanSquaredError", "MeanSquaredErrorRaw", "R2ScoreRaw", "DummySumMetric",
+          "BinaryAUROC", "MeanSquaredError", "MeanSquaredErrorRaw", "R2ScoreRaw", "Covariance", "DummySumMetric",
           "DummySumListStateMetric", "DictSumMetric", "MixedMetric"]
 
 
@@ -215,7 +215,7 @@ def witness_stream(ctx):
 def run(ctx):
     su.quiet()
     uninitialised_stream(ctx)
-    tie_stream(ctx, ctx.n(400, 8000))
+    tie_stream(ctx, ctx.n(700, 8000))
     witness_stream(ctx)
     from .. import gloo_runner
-    gloo_runner.gloo_stream(ctx, [lambda rng: gen_toolkit(rng, only_W=3)], toolkit=True)
+    gloo_runner.gloo_stream(ctx, [lambda rng, W: gen_toolkit(rng, only_W=W)], toolkit=True)
